@@ -30,7 +30,7 @@ CLAIMS = {
  "C06": dict(level="exploration", design="§4 C06",
    technique="runtime monitoring: VerifyEventSignatures driven over enumerated (version, event kind, role assignment, per-signer fault) cases with a recording verifier around a real KeyRing; monitors compare the set of servers asked, the timestamp asked and the verdict with an independent conjunction over required signers",
    text="All 15 non-pseudo-ID versions x 10 event kinds x role assignments (sender / event-ID server / invitee / authoriser drawn from 4 servers, coincidences included) x all-good, every single fault on a required signer (9 signer states) and random multi-fault vectors x 0-2 unrelated signatures. The recording verifier shows which servers the library asked about and at which timestamp; the verdict is compared with the conjunction computed from the fault vector, itself cross-checked by an independent ed25519 verification.",
-   note=TB + "KeyRing with database only (fetcher interplay is C12); pseudo-ID version (mxid_mapping self-signatures) not driven."),
+   note=TB + "KeyRing with database only (fetcher interplay is C12); pseudo-ID version (mxid_mapping self-signatures) not driven. Every event is also verified in its redacted form and in batches next to an event of another room version."),
  "C13": dict(level="exploration", design="§4 C13",
    technique="runtime monitoring: signed federation requests carried through real HTTP/1.1 framing into VerifyHTTPRequest; monitors compare the reported method/URI/origin/destination/body with what was signed and assert refusal under ~35 single-field tamperings, key-validity faults and foreign receivers, acceptance under legal header/body re-spellings",
    text="Each generated request (methods x escaped paths/queries x bodies x DNS/IPv4/IPv6 names with and without ports x key IDs x single- or multi-name receivers) is signed with the real API, written with http.Request.Write and re-read with http.ReadRequest; the untampered request must verify and report exactly what was signed, re-spelled headers/bodies must still verify, and every tampering class (request line, each Authorization parameter, duplicated/conflicting/garbage headers, body value/absence/UTF-8/JSON validity, content type, key expired / past valid_until / wrong / unknown, receiver not owning the destination) must be refused.",
@@ -66,15 +66,15 @@ CLAIMS = {
  "C12": dict(level="fault_enumeration", design="§4 C12",
    technique="runtime monitoring with fault enumeration: instrumented key database and fetcher stubs record every request while a sequential key-ring model (written from the statement) predicts each result; the single-request product of database states x fetcher behaviours x timestamps x validity rule x message shapes is enumerated completely, batches are sampled; CheckKeys, DirectKeyFetcher and PerspectiveKeyFetcher are driven over scripted key clients",
    text="Every (database state, fetcher-1 behaviour, fetcher-2 behaviour, timestamp boundary, strict/lenient, message shape) combination for one request is executed against the real KeyRing (exhaustive_subspace), plus thousands of batches with independent per-key source states. Monitors: result vector length and order, each result vs the model, a model-independent soundness check (success needs a consulted source holding a verifying key valid at that time), fetchers asked only about keys the database lacks or holds past validity, fetched records handed to StoreKeys unchanged. Key responses: CheckKeys with a controlled now and one fault each; the direct / notary-fallback / perspective fetch paths with signed, unsigned, mis-named, wrongly-notarised objects.",
-   note=TB + "validity boundaries >= 1 h from the wall clock; abstains on the wall-clock freshness of key responses inside the fetchers (they pass the epoch as now)."),
+   note=TB + "validity boundaries >= 1 h from the wall clock; abstains on the wall-clock freshness of key responses inside the fetchers (they pass the epoch as now). Key documents also travel as JSON text through the library's own client (look-alike members, a name spelt otherwise, retired keys, key IDs that need escapes)."),
  "C18": dict(level="exploration", design="§4 C18",
    technique="runtime monitoring: panic monitors around every public entry point reachable with remote data, each input logged before execution in a child process per shard (process-fatal errors attributed by the driver); inputs from systematic hostile-value field enumeration (plain and re-hashed / re-signed as a protocol-literate attacker would), seeded byte mutation and random bytes",
    text="~45 hostile JSON values x 18 top-level fields and the members of every special content x 10 event shapes x 16 room versions, each also with the content hash recomputed and valid signatures attached so that the event passes the hash gate, then ~30k byte-mutated inputs per run for events and for every other network decoder. Whatever NewEventFromUntrustedJSON accepts is driven through every accessor, Redact, SetUnsigned(Field), Sign, headered JSON, signature verification, StateNeededForAuth, Allowed (as event and as auth state), all resolvers and orderings; other bytes go through the JSON, signing, key, HTTP-auth, identifier, token and fclient decoders, CheckStateResponse / CheckSendJoinResponse / LoadAndVerify. Evidence counts entry-point calls and inputs accepted by a parser. Absence of panics is only ever 'none in N executions'.",
-   note=TB + "events from the trusted parsers (caller's own store) are parsed but not exercised further; deliberate programmer-error panics are not driven."),
+   note=TB + "events from the trusted parsers (caller's own store) are parsed but not exercised further; deliberate programmer-error panics are not driven. The federation client's own calls run against a scripted transport (404-then-200 fallbacks, short arrays, mutated bodies); join events are built from the templates it gets."),
  "C16": dict(level="exploration", design="§4 C16",
    technique="runtime monitoring: ResolveServer / LookupWellKnown run against a scripted default HTTP transport and an in-process DNS server and are compared with a reference decision table; the allow / deny decision function (hook) is compared with the policy on CIDR edge addresses; real TCP dials through the client dialer and the DNS-cache dialer are observed in the accept logs of loopback listeners",
    text="19 server-name shapes x 16 well-known outcomes x 8 SRV outcomes (2432 resolutions) are compared target-by-target (destination, Host header, TLS name) with the specification's steps, including that the delegated name is resolved without a second well-known lookup; well-known guards (status, 50 KiB with and without Content-Length, m.server) and cache-lifetime precedence are driven directly; 40+ random allow/deny configurations incl. unparsable entries x all range-edge addresses go through the decision and control functions; 72 real dials to 127.0.0.1 / 127.0.0.2 / 127.0.1.1 / ::1 check that a connection arrives at a listener iff the policy permits it.",
-   note=TB + "process-global http.DefaultTransport / net.DefaultResolver replaced inside the child process; SRV priority/weight not asserted; a well-known reply delegating to an invalid name and SERVFAIL handling follow the library."),
+   note=TB + "process-global http.DefaultTransport / net.DefaultResolver replaced inside the child process; SRV priority/weight not asserted; a well-known reply delegating to an invalid name and SERVFAIL handling follow the library. Requests also go through clients without an overall timeout and across a redirect; the request target the server sees is compared with the one written."),
  "C14": dict(level="fault_enumeration", design="§4 C14",
    technique="runtime monitoring with fault enumeration: federation responses assembled from simulated, really signed room histories receive every single-position fault (bad signature, event not allowed by its auth events, auth event removed, event of another room) and sampled multi-fault sets under three event-provider behaviours; the monitor compares what CheckStateResponse / CheckSendJoinResponse / VerifyEventAuthChain / VerifyAuthRulesAtState / LoadAndVerify return with the ground truth of the injected faults and the recursive definitions",
    text="For each simulated room the fault-free /state-shaped response, every position x fault kind (rooms up to 24 events; sampled above), multi-fault subsets of 2-5 and whole-response faults (non-state event, duplicate key, malformed element, empty) are checked: exactly the events with a bad signature (judged per event ID) or failing the auth check against their available auth events must be missing from the result. send_join: joins built against the resident's state and against a stale view, so that 'allowed by own auth events' and 'allowed by returned state' vary independently. Auth chain: a removed or disallowed link at any depth, provider errors. Auth at state: partial knowledge of the auth events with and without the validation shortcut. LoadAndVerify: one result per input, classified by the first failing check.",
